@@ -81,6 +81,29 @@ def main():
                 kinds[k] = kinds.get(k, 0) + 1
             if hi < 2 and b == 0:
                 c.sample({"history": h[:6], "results": [x["res"] for x in res[:6]]})
+    # deserialization in a fresh process: documents written by one process are decoded by another BEFORE it has built those units
+    # by arithmetic, so the decoder's own dimension computation is what gets interned
+    specs = []
+    dn = [n for n in ("meter", "second", "gram", "parsec", "shake", "firkin", "foot", "newton", "liter", "hertz", "furlong", "fortnight") if n in exp["unit_by_name"]]
+    for i in range(40 if c.tier == "quick" else 400):
+        k = c.rng.choice([2, 2, 3])
+        specs.append([[c.rng.choice([None, None, "kilo", "milli"]), c.rng.choice(dn), c.rng.choice([1, 2, -1, -2, 3, -3])] for _ in range(k)])
+    docs = impl("deser_worker.py", {"mode": "dump", "units": specs})["docs"]
+    for how in ("json", "pickle", "qjson"):
+        sub = [dict(d, how=how) for d in docs]
+        c.rng.shuffle(sub)
+        rr = impl("deser_worker.py", {"mode": "load", "docs": sub})
+        for d, x in zip(sub, rr["results"]):
+            c.count(["deserialize", how, d["spec"]], nontrivial=True)
+            if "err" in x and how == "qjson" and x["err"].split(":")[0] in ("ParseError", "KeyError"):
+                continue        # the quantity's unit text does not parse (C13 / C15 finding classes); no unit was obtained
+            if "err" in x:
+                c.violation(f"deserialize-raises:{how}", f"decoding {d['spec']} ({how}) in a fresh process raised {x['err']}", {"spec": d["spec"], "how": how}); continue
+            if not x["consistent"] or x["dim"] != d["dim"] or x["arith_dim"] != d["dim"] or not x["same_as_arithmetic"]:
+                c.violation(f"deserialized-dimension:{how}", f"a unit decoded ({how}) before it was built by arithmetic reports dimension {x['dim']} (its factors give {d['dim']}); "
+                                                              f"the same expression computed afterwards reports {x['arith_dim']}", {"spec": d["spec"], "how": how, "document": d.get(how if how != "qjson" else "qjson")})
+        for bu in rr.get("inconsistent_units", []):
+            c.violation("poisoned:" + json.dumps(bu["f"]), "after deserialization a registered unit reports a dimension that is not the product of its factors' dimensions", {"unit": bu, "how": how})
     env0 = exp["env"]
     shard = 60
     files = {}
